@@ -5,7 +5,7 @@ set -e
 export GOFLAGS=-mod=mod GOPROXY=off GOSUMDB=off GOTOOLCHAIN=local
 S=/root/scratch/suite.$$
 mkdir -p /root/scratch
-rsync -a --exclude .git /repo/ "$S/"
+rsync -a --exclude .git "${1:-/repo}/" "$S/"
 cd "$S"
 go test -json -vet=off -count=1 -timeout 25m ./... > "$S.json" 2>"$S.err" || true
 python3 - "$S.json" <<'PY'
